@@ -19,6 +19,7 @@
      upper := fun z => up (Z.to_N z). *)
 From QF Require Import Base.Prelude Model.Utf8 Model.Json Model.Match Gen.GenStrSer.
 From QF Require Import Proofs.Utf8Proofs Proofs.JsonProofs Proofs.MatchProofs.
+From QF Require Gen.GenFuncs Proofs.GenFuncsProofs.
 
 Notation zn := Z.of_nat (only parsing).
 
@@ -617,4 +618,210 @@ Proof.
   intros Hf H1 H2 H3. cbv zeta.
   rewrite (gst_NewMatcher_eq su _ re (fun x => eq_refl) fuel p cs Hf).
   exact (matcher_rule up su re p cs H1 H2 H3).
+Qed.
+
+(* ================================================================== match.go: the Matches methods *)
+(* m.Matches(s) through the interface (gst_Matches: dispatch on the struct, then the method of that struct)
+   against the model's matches, for every matcher, every cell, every rune map and — for the CI matchers —
+   every state of the reused buffer: the answer AND the matcher left behind (its buffer is whatever ToUpper
+   handed back; the upper-cased cell may be longer or shorter than the cell, ToUpper's theorem covers that).
+   regexp's answer is the arbitrary re_ms on the generated side, re_match (an option: None = not compiled) in
+   the model; the premise on a RegexpMatcher says that its expression is one that compiled. *)
+Definition answer_of (rm : bool * gst_Matcher) : bool * matcher := (fst rm, matcher_of (snd rm)).
+
+Theorem gst_Matches_eq (upper : Z -> Z) (up : N -> Z) (Hup : forall c, upper (Z.of_N c) = up c)
+  (re_ms : bytes -> bytes -> bool) (re_match : bytes -> bytes -> option bool)
+  fuel m s : 3 <= fuel ->
+  (forall r, m = gst_RegexpMatcher r -> re_match r s = Some (re_ms r s)) ->
+  ofmap answer_of (gst_Matches upper re_ms fuel m s) = matches up re_match (matcher_of m) s.
+Proof.
+  intros Hf Hre. destruct fuel as [|[|[|f]]]; try lia.
+  destruct m as [r|ms buf|ms buf|ms buf|ms buf|ms|ms|ms|ms];
+    unfold gst_Matches, matches, matcher_of; cbn [m_kind m_str m_buf];
+    try reflexivity.
+  - unfold gst_RegexpMatcher_Matches. rewrite (Hre r eq_refl). reflexivity.
+  - unfold gst_CIContainsMatcher_Matches. rewrite (gst_ToUpper_eq_gen upper up Hup) by lia.
+    destruct (to_upper up buf s) as [[u b]| |]; reflexivity.
+  - unfold gst_CISuffixMatcher_Matches. rewrite (gst_ToUpper_eq_gen upper up Hup) by lia.
+    destruct (to_upper up buf s) as [[u b]| |]; reflexivity.
+  - unfold gst_CIPrefixMatcher_Matches. rewrite (gst_ToUpper_eq_gen upper up Hup) by lia.
+    destruct (to_upper up buf s) as [[u b]| |]; reflexivity.
+  - unfold gst_CIExactMatcher_Matches. rewrite (gst_ToUpper_eq_gen upper up Hup) by lia.
+    destruct (to_upper up buf s) as [[u b]| |]; reflexivity.
+Qed.
+
+(* ================================================================== the like loops of scolumn / ecolumn *)
+(* a RegexpMatcher whose expression the regexp oracle answers on (what NewMatcher builds after a successful
+   regexp.Compile); m.Matches(s) never changes the expression *)
+Definition good_matcher (re_ms : bytes -> bytes -> bool) (re_match : bytes -> bytes -> option bool)
+  (m : gst_Matcher) : Prop :=
+  forall r, m = gst_RegexpMatcher r -> forall s, re_match r s = Some (re_ms r s).
+
+Lemma gst_Matches_keeps_regexp upper re_ms fuel m s b m' :
+  gst_Matches upper re_ms fuel m s = Ok (b, m') -> forall r, m' = gst_RegexpMatcher r -> m = gst_RegexpMatcher r.
+Proof.
+  destruct fuel as [|[|f]]; [discriminate| |].
+  - destruct m; cbn; discriminate.
+  - destruct m as [r0|ms buf|ms buf|ms buf|ms buf|ms|ms|ms|ms]; unfold gst_Matches;
+      [unfold gst_RegexpMatcher_Matches|unfold gst_CIContainsMatcher_Matches|unfold gst_CISuffixMatcher_Matches
+      |unfold gst_CIPrefixMatcher_Matches|unfold gst_CIExactMatcher_Matches|unfold gst_ContainsMatcher_Matches
+      |unfold gst_SuffixMatcher_Matches|unfold gst_PrefixMatcher_Matches|unfold gst_ExactMatcher_Matches];
+      try (destruct (gst_ToUpper upper f buf s) as [[u b']| |]); cbn [obind];
+      intros H r Hr; try discriminate;
+      apply (f_equal (fun o : outcome (bool * gst_Matcher) => match o with Ok p => Some (snd p) | _ => None end)) in H;
+      cbn in H; injection H as <-; try discriminate; exact Hr.
+Qed.
+
+Lemma new_matcher_regexp_compiled su re_match p cs r b :
+  new_matcher su re_match p cs = Ok (mkMatcher KRegex r b) -> re_match r [] <> None.
+Proof.
+  unfold new_matcher. cbv zeta.
+  destruct (negb (bytes_eqb (quote_meta p) p)).
+  - destruct (if negb (has_prefix p [c_percent]) then Ok ([c_caret] ++ p) else slice_from p 1) as [p1| |];
+      try discriminate. cbn [obind].
+    destruct (if negb (has_suffix p [c_percent]) then Ok (p1 ++ [c_dollar])
+              else slice_to p1 (zn (length p1) - 1)) as [p2| |]; try discriminate. cbn [obind].
+    match goal with |- context [re_match ?x []] => destruct (re_match x []) eqn:E end; try discriminate.
+    intros H.
+    assert (Hr : (if negb cs then c_ci_flag ++ p2 else p2) = r) by (injection H as Hr _; exact Hr).
+    rewrite <- Hr, E. discriminate.
+  - destruct (negb cs), (has_prefix p [c_percent]), (has_suffix p [c_percent]); discriminate.
+Qed.
+
+Lemma ofmap_id {A} (o : outcome A) : ofmap (fun x => x) o = o.
+Proof. destruct o; reflexivity. Qed.
+
+Lemma set_nth_middle {A} (done : list A) x rest v : set_nth (done ++ x :: rest) (length done) v = done ++ v :: rest.
+Proof. induction done as [|d done IH]; [reflexivity|]. cbn [app length set_nth]. rewrite IH. reflexivity. Qed.
+
+Section LikeLoops.
+  Variable upper : Z -> Z.
+  Variable up : N -> Z.
+  Hypothesis Hup : forall c, upper (Z.of_N c) = up c.
+  Variable re_ms : bytes -> bytes -> bool.
+  Variable re_match : bytes -> bytes -> option bool.
+
+  (* regexFilter's loop: the generated loop walks the (position, element) pairs of the ORIGINAL bIndex and writes
+     into bIndex; the model's rf_loop builds the result; done = the part already decided *)
+  Lemma rf_loop_eq f index col : 3 <= f -> forall rest done gm, good_matcher re_ms re_match gm ->
+    obind (gst_scolumn_regexFilter_loop1 upper re_ms f
+             (combine (map zn (seq (length done) (length rest))) rest) index col (done ++ rest) gm)
+          (fun r => Ok (fst r))
+    = ofmap (app done) (rf_loop up re_match index col (matcher_of gm) (length done) rest).
+  Proof.
+    intros Hf. induction rest as [|x rest IH]; intros done gm Hgood.
+    - cbn. rewrite app_nil_r. reflexivity.
+    - cbn [length seq map combine gst_scolumn_regexFilter_loop1 rf_loop].
+      assert (Hnext : forall (b : bool) gm', good_matcher re_ms re_match gm' ->
+        obind (gst_scolumn_regexFilter_loop1 upper re_ms f
+                 (combine (map zn (seq (S (length done)) (length rest))) rest) index col (done ++ b :: rest) gm')
+              (fun r => Ok (fst r))
+        = ofmap (app done) (do r <- rf_loop up re_match index col (matcher_of gm') (S (length done)) rest;
+                            Ok (b :: r))).
+      { intros b gm' Hg. pose proof (IH (done ++ [b]) gm' Hg) as E.
+        rewrite app_length in E. cbn [length] in E. rewrite Nat.add_1_r, <- app_assoc in E. cbn [app] in E.
+        rewrite E. destruct (rf_loop up re_match index col (matcher_of gm') (S (length done)) rest);
+          cbn [ofmap obind]; [rewrite <- app_assoc|..]; reflexivity. }
+      destruct x; cbn [negb].
+      + cbn [obind]. apply Hnext. exact Hgood.
+      + unfold gst_index_id. replace (zn (length done) <? 0)%Z with false by lia. rewrite Nat2Z.id.
+        destruct (idx index (length done)) as [ix| |]; [|reflexivity|reflexivity]. cbn [obind].
+        unfold gst_stringAt.
+        destruct (idx col ix) as [[cell|]| |]; [| |reflexivity|reflexivity]; cbn [obind negb].
+        * pose proof (gst_Matches_eq upper up Hup re_ms re_match f gm cell Hf
+                        (fun r E => Hgood r E cell)) as HM.
+          destruct (gst_Matches upper re_ms f gm cell) as [[b gm']| |] eqn:EM;
+            cbn [ofmap answer_of fst snd] in HM; rewrite <- HM; [|reflexivity|reflexivity].
+          cbn [obind fst snd]. unfold gst_store_bool.
+          replace ((0 <=? zn (length done))%Z && (zn (length done) <? zn (length (done ++ false :: rest)))%Z)
+            with true by (rewrite app_length; cbn [length]; lia).
+          rewrite Nat2Z.id, set_nth_middle. cbn [obind]. apply Hnext.
+          intros r Hr. apply Hgood. exact (gst_Matches_keeps_regexp _ _ _ _ _ _ _ EM r Hr).
+        * apply Hnext. exact Hgood.
+  Qed.
+End LikeLoops.
+
+(* func regexFilter (like / ilike on a string column): the final bIndex, or Fail for the error return *)
+Theorem gst_regexFilter_eq (upper : Z -> Z) (up : N -> Z) (Hup : forall c, upper (Z.of_N c) = up c)
+  (su : bytes -> bytes) (re_compile : bytes -> bool) (re_ms : bytes -> bytes -> bool)
+  (re_match : bytes -> bytes -> option bool)
+  (Hre : forall x, re_compile x = match re_match x [] with Some _ => true | None => false end)
+  (Hms : forall pat s, re_match pat [] <> None -> re_match pat s = Some (re_ms pat s))
+  fuel index col p bi cs : 4 <= fuel ->
+  gst_scolumn_regexFilter upper su re_compile re_ms fuel index col p bi cs
+  = regex_filter up su re_match index col p bi cs.
+Proof.
+  intros Hf. destruct fuel as [|f]; [lia|]. unfold gst_scolumn_regexFilter, regex_filter.
+  rewrite <- (gst_NewMatcher_eq su re_compile re_match Hre f p cs) by lia.
+  destruct (gst_NewMatcher su re_compile f p cs) as [gm| |] eqn:EN; [|reflexivity|reflexivity].
+  cbn [ofmap obind].
+  assert (Hgood : good_matcher re_ms re_match gm).
+  { intros r -> s. apply Hms.
+    apply (new_matcher_regexp_compiled su re_match p cs r []).
+    rewrite <- (gst_NewMatcher_eq su re_compile re_match Hre f p cs) by lia. rewrite EN. reflexivity. }
+  pose proof (rf_loop_eq upper up Hup re_ms re_match f index col ltac:(lia) bi [] gm Hgood) as E.
+  cbn [length app] in E. unfold gst_enum.
+  change (fun r : list bool * gst_Matcher => Ok (fst r))
+    with (fun '(v_bIndex, v_matcher) => @Ok (list bool) v_bIndex) in E || idtac.
+  rewrite ofmap_id in E. rewrite <- E.
+  destruct (gst_scolumn_regexFilter_loop1 upper re_ms f (combine (map zn (seq 0 (length bi))) bi) index col bi gm)
+    as [[b m]| |]; reflexivity.
+Qed.
+
+(* ================================================================== ecolumn/filters.go: filterLike *)
+Lemma enumval_of_nat i : Z.to_N (zn i mod 256) = (N.of_nat i mod 256)%N.
+Proof. rewrite <- nat_N_Z. change 256%Z with (Z.of_N 256). rewrite <- N2Z.inj_mod. apply N2Z.id. Qed.
+
+Section FilterLike.
+  Variable upper : Z -> Z.
+  Variable up : N -> Z.
+  Hypothesis Hup : forall c, upper (Z.of_N c) = up c.
+  Variable re_ms : bytes -> bytes -> bool.
+  Variable re_match : bytes -> bytes -> option bool.
+
+  (* the matcher applied once per enum VALUE, bset.set(enumVal(i)) = the translated set of GenFuncs.v *)
+  Lemma fl_loop_eq f : 3 <= f -> forall values i gm bset, good_matcher re_ms re_match gm -> length bset = 4 ->
+    obind (gst_ecolumn_filterLike_loop1 upper re_ms f (combine (map zn (seq i (length values))) values) gm
+             (map Z.of_N bset)) (fun r => Ok (snd r))
+    = ofmap (map Z.of_N) (fl_loop up re_match (matcher_of gm) i values bset).
+  Proof.
+    intros Hf. induction values as [|v values IH]; intros i gm bset Hgood Hlen; [reflexivity|].
+    cbn [length seq map combine gst_ecolumn_filterLike_loop1 fl_loop].
+    pose proof (gst_Matches_eq upper up Hup re_ms re_match f gm v Hf (fun r E => Hgood r E v)) as HM.
+    destruct (gst_Matches upper re_ms f gm v) as [[b gm']| |] eqn:EM;
+      cbn [ofmap answer_of fst snd] in HM; rewrite <- HM; [|reflexivity|reflexivity].
+    cbn [obind fst snd answer_of].
+    assert (Hg' : good_matcher re_ms re_match gm').
+    { intros r Hr. apply Hgood. exact (gst_Matches_keeps_regexp _ _ _ _ _ _ _ EM r Hr). }
+    destruct b.
+    - rewrite (GenFuncsProofs.gf_ecolumn_bitset_set_eq bset (zn i mod 256) Hlen)
+        by (apply Z.mod_pos_bound; lia).
+      cbn [of_option obind]. rewrite enumval_of_nat.
+      apply IH; [exact Hg'|]. rewrite bitset_set_length. exact Hlen.
+    - cbn [obind]. apply IH; assumption.
+  Qed.
+End FilterLike.
+
+(* func filterLike (like / ilike on an enum column): the bitset over the enum values, or Fail *)
+Theorem gst_filterLike_eq (upper : Z -> Z) (up : N -> Z) (Hup : forall c, upper (Z.of_N c) = up c)
+  (su : bytes -> bytes) (re_compile : bytes -> bool) (re_ms : bytes -> bytes -> bool)
+  (re_match : bytes -> bytes -> option bool)
+  (Hre : forall x, re_compile x = match re_match x [] with Some _ => true | None => false end)
+  (Hms : forall pat s, re_match pat [] <> None -> re_match pat s = Some (re_ms pat s))
+  fuel p values cs : 4 <= fuel ->
+  gst_ecolumn_filterLike upper su re_compile re_ms fuel p values cs
+  = ofmap (map Z.of_N) (filter_like up su re_match p values cs).
+Proof.
+  intros Hf. destruct fuel as [|f]; [lia|]. unfold gst_ecolumn_filterLike, filter_like.
+  rewrite <- (gst_NewMatcher_eq su re_compile re_match Hre f p cs) by lia.
+  destruct (gst_NewMatcher su re_compile f p cs) as [gm| |] eqn:EN; [|reflexivity|reflexivity].
+  cbn [ofmap obind]. cbv zeta.
+  assert (Hgood : good_matcher re_ms re_match gm).
+  { intros r -> s. apply Hms.
+    apply (new_matcher_regexp_compiled su re_match p cs r []).
+    rewrite <- (gst_NewMatcher_eq su re_compile re_match Hre f p cs) by lia. rewrite EN. reflexivity. }
+  pose proof (fl_loop_eq upper up Hup re_ms re_match f ltac:(lia) values 0 gm Bits.bitset_empty Hgood eq_refl) as E.
+  rewrite <- E. unfold gst_enum. change (map Z.of_N Bits.bitset_empty) with gst_bitset_zero.
+  destruct (gst_ecolumn_filterLike_loop1 upper re_ms f (combine (map zn (seq 0 (length values))) values) gm
+              gst_bitset_zero) as [[m b]| |]; reflexivity.
 Qed.
